@@ -1,5 +1,12 @@
 (* C25 - Peer file replication never exposes a bad file and converges.
-   Only property statements live here; proofs are in Proofs.v. *)
+   Only property statements live here; proofs are in Proofs.v.
+
+   The CURRENT code is the model configuration cfg_fix_presence = cfg_fix_nopeers = true
+   (repo commits b7c1b90 and ca914ab).  The theorems tied to it are
+     C25_final_only_verified, C25_final_only_verified_jobs      (hold for every configuration),
+     C25_presence_truthful_with_fix, C25_convergence_with_fix, C25_gate_truthful_with_fixes.
+   The *_refuted / *_guarded statements are about the OLD variant (flags false): they record the
+   two defects that were repaired and what was true of that code. *)
 From Coq Require Import List NArith ZArith Bool Lia.
 From Arc Require Import Lib.AList Storage.Model FileRepl.Model FileRepl.Proofs.
 Import ListNotations.
@@ -45,8 +52,8 @@ Definition cfg_now (n : nat) : config := {| cfg_max_attempts := n; cfg_fix_prese
 Definition cfg_fixed (n : nat) : config := {| cfg_max_attempts := n; cfg_fix_presence := true; cfg_fix_nopeers := true |}.
 Definition ps0 : pstate := {| p_fs := []; p_cnt := zero_counters; p_cu_done := false; p_cu_failed := false |}.
 
-(* (2) "counted present => complete and correct at the final path" is FALSE for the code as it
-   is: one corrupted full-length transfer leaves a full-size .part (Delete removes only the
+(* (2) OLD VARIANT.  "counted present => complete and correct at the final path" was FALSE for
+   the code before b7c1b90: one corrupted full-length transfer leaves a full-size .part (Delete removes only the
    final path); the next attempt's pre-check sees the size match through StatFile's .part
    fallback and counts the file as present (skipped_local) while the final path is absent. *)
 Theorem C25_presence_truthful_refuted :
@@ -61,7 +68,7 @@ Proof.
 Qed.
 Print Assumptions C25_presence_truthful_refuted.
 
-(* the strongest true statement for the code as it is: unless processEntry ended by skipping on
+(* OLD VARIANT (in fact any configuration): the strongest statement true of that code: unless processEntry ended by skipping on
    a pre-check that matched although nothing was at the final path, a file counted as present
    (pulled or skipped_local) is complete and correct at its final path *)
 Theorem C25_presence_truthful_guarded : forall H cfg e f script c st f' c' o,
@@ -71,8 +78,8 @@ Theorem C25_presence_truthful_guarded : forall H cfg e f script c st f' c' o,
 Proof. intros H cfg e f. exact (presence_guarded H cfg f e). Qed.
 Print Assumptions C25_presence_truthful_guarded.
 
-(* with presence judged on the final path only (fixes/C25_presence_final_path.patch) the
-   property holds at full strength *)
+(* CURRENT CODE: presence is judged on the final path only, and the property holds at full
+   strength *)
 Theorem C25_presence_truthful_with_fix : forall H cfg e f script c st f' c' o,
   cfg_fix_presence cfg = true ->
   final_good H e f ->
@@ -86,7 +93,7 @@ Print Assumptions C25_presence_truthful_with_fix.
 Definition consistent_manifest (H : bytes -> bytes) (e : entry) (content : bytes) : Prop :=
   H content = e_sha e /\ blen content = e_size e /\ is_empty (e_sha e) = false.
 
-(* refuted for the code as it is: after one corrupted transfer (a pull that gave up), a later
+(* OLD VARIANT, refuted: after one corrupted transfer (a pull that gave up), a later
    pull whose peers are all honest -- faults have stopped -- still leaves the final path
    empty, and the catch-up gate opens *)
 Theorem C25_convergence_refuted :
@@ -101,7 +108,7 @@ Proof.
 Qed.
 Print Assumptions C25_convergence_refuted.
 
-(* guarded: after ANY sequence of faulty pulls, a pull whose first candidate peer is honest
+(* OLD VARIANT (any configuration), guarded: after ANY sequence of faulty pulls, a pull whose first candidate peer is honest
    puts the correct file at the final path, provided the pre-check does not match a stale
    staging file at that moment *)
 Theorem C25_convergence_guarded : forall H cfg e content ps faulty rest more cu st1 ps1 st ps',
@@ -113,7 +120,7 @@ Theorem C25_convergence_guarded : forall H cfg e content ps faulty rest more cu 
 Proof. exact jobs_then_honest_converge. Qed.
 Print Assumptions C25_convergence_guarded.
 
-(* with the repair, unconditionally: once faults stop, the next pull of the path converges *)
+(* CURRENT CODE, unconditionally: once faults stop, the next pull of the path converges *)
 Theorem C25_convergence_with_fix : forall H cfg e content ps faulty rest more cu st ps',
   cfg_fix_presence cfg = true ->
   final_good H e (p_fs ps) -> consistent_manifest H e content -> (1 <= cfg_max_attempts cfg)%nat ->
@@ -126,7 +133,7 @@ Proof.
 Qed.
 Print Assumptions C25_convergence_with_fix.
 
-(* (4) Catch-up accounting.  Second defect of the code as it is: when the resolver returns no
+(* (4) Catch-up accounting.  OLD VARIANT (before ca914ab), second repaired defect: when the resolver returns no
    candidate peers on the last attempt (here: on every attempt), the retry loop `continue`s past the give-up branch:
    the pull is neither failed nor succeeded, the catch-up tag is cleared and the gate opens
    with the file missing (and the `failed` counter stays 0). *)
@@ -138,7 +145,7 @@ Theorem C25_gate_refuted_no_peers :
 Proof. exists id_hash, w_entry. vm_compute. repeat split; reflexivity. Qed.
 Print Assumptions C25_gate_refuted_no_peers.
 
-(* with both repairs: for ANY sequence of pulls (any faults, any peers), whenever the catch-up
+(* CURRENT CODE: for ANY sequence of pulls (any faults, any peers), whenever the catch-up
    gate is open for the path, the complete correct file is at its final path *)
 Theorem C25_gate_truthful_with_fixes : forall H cfg e f jobs st ps',
   cfg_fix_presence cfg = true -> cfg_fix_nopeers cfg = true -> (1 <= cfg_max_attempts cfg)%nat ->
